@@ -24,7 +24,8 @@ LEVEL = 'exploration'
 RULE = (
     'traces: 2 Li atoms x 3 sites (no shell): all traces with 2 frames, 3-frame traces = all histories of atom 0 x 4 '
     'fixed tracks of atom 1 (thorough: all 3-frame traces, 4-frame for one atom); labels {ABA, ABC, AAA}; framework S,S,P '
-    'from a 3-position alphabet; LATTICES; (max_dist, resolution) in {(2,0.5),(3,0.3),(5,0.1)}; both species orders; '
+    'from a 3-position alphabet; LATTICES; (max_dist, resolution) in {(2,0.5),(3,0.3),(5,0.1),(2,0.3)}; both species orders; S atoms as one species or as two species '
+    'sharing the symbol; site structure with its own cell; states must not depend on the inner fraction; '
     'evaluation = one (frame, Li atom, other atom) pair; distinct = distinct (scenario, histogram) outcomes'
 )
 LEVEL_TEXT = (
